@@ -539,7 +539,60 @@ impl State {
             }
             ["REC"] => {
                 let m = ProguardMapping::new(self.mapping);
-                let v: Vec<String> = m.iter().map(|it| r_item(&it)).collect();
+                // reference: an explicit `next()` loop; every other way of driving the iterator
+                // (internal iteration, positional access, clones) must yield the same items
+                let mut v: Vec<String> = Vec::new();
+                let mut it = m.iter();
+                while let Some(x) = it.next() {
+                    v.push(r_item(&x));
+                }
+                if it.next().is_some() {
+                    return "ITER-MISMATCH not fused".into();
+                }
+                let n = v.len();
+                let collected: Vec<String> = m.iter().map(|it| r_item(&it)).collect();
+                let mut folded: Vec<String> = Vec::new();
+                m.iter().for_each(|x| folded.push(r_item(&x)));
+                let folded2 = m.iter().fold(Vec::new(), |mut a, x| {
+                    a.push(r_item(&x));
+                    a
+                });
+                if collected != v || folded != v || folded2 != v {
+                    return "ITER-MISMATCH collect/for_each/fold".into();
+                }
+                if m.iter().count() != n || m.iter().last().map(|x| r_item(&x)) != v.last().cloned() {
+                    return "ITER-MISMATCH count/last".into();
+                }
+                if m.iter().filter(|x| x.is_err()).count() != v.iter().filter(|s| s.starts_with("E(")).count() {
+                    return "ITER-MISMATCH filter.count".into();
+                }
+                for k in [0usize, 1, 2, 3, 5, n / 2, n.saturating_sub(1), n, n + 1] {
+                    if m.iter().nth(k).map(|x| r_item(&x)) != v.get(k).cloned() {
+                        return format!("ITER-MISMATCH nth({})", k);
+                    }
+                    if m.iter().skip(k).next().map(|x| r_item(&x)) != v.get(k).cloned() {
+                        return format!("ITER-MISMATCH skip({})", k);
+                    }
+                    let mut c = m.iter();
+                    for _ in 0..k.min(n) {
+                        c.next();
+                    }
+                    let rest: Vec<String> = c.clone().map(|x| r_item(&x)).collect();
+                    if rest[..] != v[k.min(n)..] {
+                        return format!("ITER-MISMATCH clone after {}", k);
+                    }
+                }
+                for st in [2usize, 3, 7] {
+                    let a: Vec<String> = m.iter().step_by(st).map(|x| r_item(&x)).collect();
+                    let b: Vec<String> = v.iter().step_by(st).cloned().collect();
+                    if a != b {
+                        return format!("ITER-MISMATCH step_by({})", st);
+                    }
+                }
+                let (lo, hi) = m.iter().size_hint();
+                if lo > n || hi.map_or(false, |h| h < n) {
+                    return "ITER-MISMATCH size_hint".into();
+                }
                 format!("R:{}", v.join(";"))
             }
             ["TRY", h] => {
@@ -723,6 +776,32 @@ impl State {
                 hxs(&t.to_string())
             }
             ["FMT", _] => "ok".into(),
+            ["SF", c, m, l, f, p] => {
+                // the three public constructors and every accessor of `StackFrame`
+                let (c, m, l, f, p) = (s!(c), s!(m), n!(l), os!(f), os!(p));
+                let fr = cur::mk_frame(&c, &m, l, f.as_deref(), p.as_deref());
+                format!("{}/{}/{}", cur::r_frame(&fr), hxs(&fr.to_string()), hxs(&fr.full_method()))
+            }
+            ["DBG"] => {
+                // `ProguardCache::display()` and the `Debug` views of the cache written from the
+                // current mapping
+                if self.wcache.is_none() {
+                    let w = self.written();
+                    self.wcache = Some(cur::parse_cache(w));
+                }
+                match self.wcache.as_ref().unwrap() {
+                    Err(_) => "noparse".into(),
+                    Ok(c) => {
+                        let shown = c.display().to_string();
+                        let dbg = format!("{:?}", c);
+                        // the per-record Debug views only have to be total on written caches
+                        let n1 = c.debug_classes().map(|x| format!("{:?}/{}", x, x).len()).count();
+                        let n2 = c.debug_members().map(|x| format!("{:?}/{}", x, x).len()).count();
+                        let n3 = c.debug_members_by_params().map(|x| format!("{:?}/{}", x, x).len()).count();
+                        format!("{} {} {} {} {}", hxs(&shown), hxs(&dbg), n1, n2, n3)
+                    }
+                }
+            }
             ["FULL", c, m] => {
                 let (c, m) = (s!(c), s!(m));
                 hxs(&StackFrame::new(&c, &m, 0).full_method())
